@@ -28,7 +28,7 @@ def fragment_before(code, line, column):
         return None
     for t in all_toks:
         if t.start[0] == t.end[0] == line and t.start[1] < column <= t.end[1]:
-            if t.type == tokenize.NAME:
+            if t.type == tokenize.NAME and t.string.isidentifier():
                 return t.string[:column - t.start[1]]
             return None  # inside some other token: not claimed
         if t.type in (tokenize.STRING, tokenize.COMMENT) or getattr(tokenize, 'FSTRING_START', -1) == t.type:
